@@ -39,7 +39,7 @@ PROFILES: List[Tuple[str, float, Dict[str, Any]]] = [
     ('nested-refs', 2, dict(reexport=0.5, roots=(1, 3), nested=0.7, nested_refs=0.8, alias=0.3)),
     ('docformat', 1, dict(reexport=0.3, roots=(1, 2), fields=0.8, pkg_docformat=1.0, consumer_roots=True)),
     ('multi',     1, dict(reexport=0.7, multi_reexport=True, roots=(1, 3))),
-    ('zope',      1, dict(reexport=0.3, zope=1.0, roots=(1, 2))),
+    ('zope',      3, dict(reexport=0.3, zope=1.0, roots=(1, 2))),
     ('docassign', 3, dict(reexport=0.3, docassign=0.7, docassign_modules=True, roots=(1, 2))),
     ('dups',      1, dict(reexport=0.4, dup=0.5, dup_mixed=True, roots=(1, 2))),
     ('shadow',    2, dict(reexport=0.7, shadow_import=0.7, rebind_same=0.4, roots=(1, 3), consumer_roots=True)),
